@@ -33,8 +33,10 @@ impl RelationToQueryTranslator for RedshiftSqlTranslator {
             duplicate_treatment: None,
             args: exprs
                 .into_iter()
-                .filter_map(|e| {
-                    (e != ast::Expr::Value(ast::Value::Number("0".to_string(), false)))
+                .enumerate()
+                .filter_map(|(i, e)| {
+                    // only a zero precision is dropped, never the (possibly zero) operand
+                    (i == 0 || e != ast::Expr::Value(ast::Value::Number("0".to_string(), false)))
                         .then_some(ast::FunctionArg::Unnamed(ast::FunctionArgExpr::Expr(e)))
                 })
                 .collect(),
@@ -57,8 +59,10 @@ impl RelationToQueryTranslator for RedshiftSqlTranslator {
             duplicate_treatment: None,
             args: exprs
                 .into_iter()
-                .filter_map(|e| {
-                    (e != ast::Expr::Value(ast::Value::Number("0".to_string(), false)))
+                .enumerate()
+                .filter_map(|(i, e)| {
+                    // only a zero precision is dropped, never the (possibly zero) operand
+                    (i == 0 || e != ast::Expr::Value(ast::Value::Number("0".to_string(), false)))
                         .then_some(ast::FunctionArg::Unnamed(ast::FunctionArgExpr::Expr(e)))
                 })
                 .collect(),
